@@ -1,2 +1,367 @@
-(* placeholder *)
-From GT Require Import Base.Prelude Model.Tokens Model.Parser.
+(* C17 — "Parsers build exactly what was written and reject malformed descriptions; no parser ever returns an
+   object that violates its class invariants."
+
+   Token-level model (Model/Tokens.v, Model/Parser.v) of AutomatonParser / AutomatonBuilder and of DFABuilder,
+   NFABuilder, PDABuilder, TMBuilder: a text is a list of lines, a line a list of words, a word a list of character
+   codes; None = the description is rejected.  Definitions used in the statements (Proofs/ParserProofs.v):
+     is_comment l            blank line or first word starting with '%'
+     is_reserved kw w        w is states / final / initial or a keyword of the format
+     is_decl kw l, is_trans kw l   the line is a declaration line / a transition line
+     line_ok sre lre kw l    the per-line checks of the parser; decls / transs = the declarations / transitions of a text
+     kw_dfa, kw_nfa, kw_pda, kw_tm  the keyword sets (parse_dfa falls back to the keywords of all four formats)
+     aut_equiv               equality of parsed automaton records up to the order of a_trans / a_items
+     tdfa_equiv, tnfa_equiv, tpda_equiv, ttm_equiv   field-wise equality as sets (DFA / TM delta: equal lookup;
+                             NFA delta: the same transition relation tn_step)
+   Part A: class invariants.  Part B: one rejection theorem per fault class.  Part S: closed form of the parser and of
+   the builders (exactly what was written; omitted declarations derived).  Part C: insensitivity to layout (comments,
+   blank lines, splitting labels over lines, line order — for TMs the line order matters when two lines give the same
+   (state, read symbol) key: the later one wins, witness C17_tm_line_order_matters). *)
+From Coq Require Import Permutation.
+From GT Require Import Base.Prelude Model.Tokens Model.Parser Model.Printer Proofs.ParserProofs.
+
+(* ---------------- Part A: class invariants ---------------- *)
+Theorem C17_parse_dfa_wf : forall sre text D, parse_dfa_with sre text = Some D -> tdfa_wf_b D = true.
+Proof. exact parse_dfa_wf. Qed.
+Theorem C17_parse_nfa_wf : forall text N, parse_nfa text = Some N -> tnfa_wf_b N = true.
+Proof. exact parse_nfa_wf. Qed.
+Theorem C17_parse_pda_wf : forall text P, parse_pda text = Some P -> tpda_wf_b P = true.
+Proof. exact parse_pda_wf. Qed.
+Theorem C17_parse_tm_wf : forall text T, parse_tm text = Some T -> ttm_wf_b T = true.
+Proof. exact parse_tm_wf. Qed.
+
+(* ---------------- Part S: the parser in closed form, exactness ---------------- *)
+Theorem C17_parse_automaton_spec : forall sre lre kw text,
+  parse_automaton sre lre kw text = if text_ok sre lre kw text then Some (text_aut kw text) else None.
+Proof. exact parse_automaton_spec. Qed.
+
+Theorem C17_parse_automaton_exact : forall sre lre kw text A,
+  parse_automaton sre lre kw text = Some A ->
+  a_trans A = transs kw text /\ a_items A = decls kw text /\
+  a_states A = field kw_states (decls kw text) [] /\ a_init A = field kw_initial (decls kw text) [] /\
+  a_final A = field kw_final (decls kw text) [] /\ NoDup (map fst (decls kw text)) /\
+  (forall l, In l text -> line_ok sre lre kw l = true).
+Proof. exact parse_automaton_exact. Qed.
+
+Theorem C17_build_dfa_exact : forall sre A D, build_dfa sre A = Some D ->
+  tdQ D = states_or_used A /\ get_symbol_set A kw_input_symbols (dedup (map snd (dfa_keys A))) = Some (tdS D) /\
+  tdD D = dfa_delta_of (a_trans A) /\ tdq0 D = hd [] (a_init A) /\ tdF D = a_final A /\
+  length (dedup (a_init A)) = 1 /\ NoDup (dfa_keys A) /\ incl (used_states A) (tdQ D) /\ (forall s, In s (tdQ D) -> sre s = true).
+Proof. exact build_dfa_exact. Qed.
+
+Theorem C17_build_nfa_exact : forall sre A N, build_nfa sre A = Some N ->
+  tnQ N = states_or_used A /\ parse_symbol A kw_epsilon c_eps [c_underscore] = Some (tneps N) /\
+  get_symbol_set A kw_input_symbols
+    (dedup (filter (fun a => negb (eqb a (tneps N))) (map (fun t : token * token * token => let '(_, a, _) := t in a) (a_trans A)))) = Some (tnS N) /\
+  tnD N = group_nfa (a_trans A) /\ tnq0 N = hd [] (a_init A) /\ tnF N = a_final A /\
+  length (dedup (a_init A)) = 1 /\ incl (used_states A) (tnQ N) /\ (forall s, In s (tnQ N) -> sre s = true).
+Proof. exact build_nfa_exact. Qed.
+
+(* the grouped NFA transition table holds exactly the written transitions *)
+Theorem C17_group_nfa_target : forall trs p a q, has_target (group_nfa trs) (p, a) q <-> In (p, a, q) trs.
+Proof. exact group_nfa_target. Qed.
+
+Theorem C17_build_pda_exact : forall sre A P, build_pda sre A = Some P ->
+  let labels := map (fun t : token * token * token => let '(_, a, _) := t in a) (a_trans A) in
+  tpQ P = states_or_used A /\ parse_symbol A kw_epsilon c_eps [c_underscore] = Some (tpeps P) /\
+  get_symbol_set A kw_input_symbols (dedup (filter (fun a => negb (eqb a (tpeps P))) (map (fun l => lbl l 0) labels))) = Some (tpS P) /\
+  get_symbol_set A kw_stack_symbols (dedup (filter (fun a => negb (eqb a (tpeps P))) (flat_map (fun l => [lbl l 2; lbl l 3]) labels))) = Some (tpG P) /\
+  tpD P = dedup (map pda_tuple_of (a_trans A)) /\ tpq0 P = hd [] (a_init A) /\ tpF P = a_final A /\
+  length (dedup (a_init A)) = 1 /\ incl (used_states A) (tpQ P) /\ (forall s, In s (tpQ P) -> sre s = true).
+Proof. exact build_pda_exact. Qed.
+
+Theorem C17_build_tm_exact : forall sre A T, build_tm sre A = Some T ->
+  get_single A kw_accept (fresh_state_tok (a_states A) kw_accept) = Some (ttqa T) /\
+  get_single A kw_reject (fresh_state_tok (a_states A) kw_reject) = Some (ttqr T) /\
+  ttQ T = tm_states A (ttqa T) (ttqr T) /\ parse_symbol A kw_blank c_box [c_underscore] = Some (ttblank T) /\
+  (exists tape, get_symbol_set A kw_tape_symbols (tm_used_tape A) = Some tape /\
+                ttG T = add (ttblank T) tape /\ ttS T = tm_sigma A (ttblank T) tape) /\
+  ttD T = tm_delta_of (a_trans A) /\ ttq0 T = hd [] (a_init A) /\
+  length (dedup (a_init A)) = 1 /\ incl (used_states A) (ttQ T) /\ (forall s, In s (ttQ T) -> sre s = true).
+Proof. exact build_tm_exact. Qed.
+
+(* the TM transition table: with unique (state, read symbol) keys it holds exactly the written transitions *)
+Theorem C17_tm_delta_lookup : forall trs k v,
+  NoDup (map tm_key trs) -> lookup k (tm_delta_of trs) = Some v <-> exists x, In x trs /\ tm_key x = k /\ tm_val x = v.
+Proof. exact tm_delta_lookup. Qed.
+
+(* declared / derived symbol sets and default symbols *)
+Theorem C17_get_symbol_set_Some : forall A k used s,
+  get_symbol_set A k used = Some s ->
+  (exists d, lookup k (a_items A) = Some d /\ s = dedup d /\ incl used d) \/ (lookup k (a_items A) = None /\ s = used).
+Proof. exact get_symbol_set_Some. Qed.
+
+Theorem C17_parse_symbol_Some : forall A k c d e,
+  parse_symbol A k c d = Some e ->
+  lookup k (a_items A) = Some [e] \/
+  (lookup k (a_items A) = None /\
+   ((e = [c] /\ exists p a q, In (p, a, q) (a_trans A) /\ In c a) \/ (e = d /\ forall p a q, In (p, a, q) (a_trans A) -> ~ In c a))).
+Proof. exact parse_symbol_Some. Qed.
+
+(* ---------------- Part B: rejection ---------------- *)
+(* B0: any line failing the per-line checks makes the parser reject the whole text *)
+Theorem C17_bad_line_rejected : forall sre lre kw text l,
+  In l text -> line_ok sre lre kw l = false -> parse_automaton sre lre kw text = None.
+Proof. exact bad_line_rejected. Qed.
+
+Theorem C17_rejected_line_fold : forall sre lre kw t1 l t2,
+  (forall A, parse_line sre lre kw (Some A) l = None) -> parse_automaton sre lre kw (t1 ++ l :: t2) = None.
+Proof. exact rejected_line_fold. Qed.
+
+(* B1: incomplete transition (one or two words) *)
+Theorem C17_incomplete_transition_rejected : forall sre lre kw text l,
+  In l text -> is_trans kw l = true -> length l <= 2 -> parse_automaton sre lre kw text = None.
+Proof. exact incomplete_transition_rejected. Qed.
+
+Theorem C17_incomplete_transition_rejected_all : forall text l,
+  In l text -> is_trans kw_dfa l = true -> length l <= 2 ->
+  (forall sre, parse_dfa_with sre text = None) /\ parse_nfa text = None /\ parse_pda text = None /\ parse_tm text = None.
+Proof. exact incomplete_transition_rejected_all. Qed.
+
+(* B2: ill-formed state word or label in a transition line *)
+Theorem C17_bad_label_rejected : forall sre lre kw text p q labels,
+  In (p :: q :: labels) text -> is_trans kw (p :: q :: labels) = true ->
+  sre p = false \/ sre q = false \/ (exists a, In a labels /\ lre a = false) ->
+  parse_automaton sre lre kw text = None.
+Proof. exact bad_label_rejected. Qed.
+
+Theorem C17_bad_label_rejected_dfa : forall sre text p q labels,
+  In (p :: q :: labels) text -> is_trans kw_dfa (p :: q :: labels) = true ->
+  sre p = false \/ sre q = false \/ In [] labels -> parse_dfa_with sre text = None.
+Proof. exact bad_label_rejected_dfa. Qed.
+
+Theorem C17_bad_label_rejected_nfa : forall text p q labels,
+  In (p :: q :: labels) text -> is_trans kw_nfa (p :: q :: labels) = true ->
+  re_word p = false \/ re_word q = false \/ In [] labels -> parse_nfa text = None.
+Proof. exact bad_label_rejected_nfa. Qed.
+
+Theorem C17_bad_label_rejected_pda : forall text p q labels,
+  In (p :: q :: labels) text -> is_trans kw_pda (p :: q :: labels) = true ->
+  re_word p = false \/ re_word q = false \/ (exists a, In a labels /\ re_pda_label a = false) -> parse_pda text = None.
+Proof. exact bad_label_rejected_pda. Qed.
+
+Theorem C17_bad_label_rejected_tm : forall text p q labels,
+  In (p :: q :: labels) text -> is_trans kw_tm (p :: q :: labels) = true ->
+  re_word p = false \/ re_word q = false \/ (exists a, In a labels /\ re_tm_label a = false) -> parse_tm text = None.
+Proof. exact bad_label_rejected_tm. Qed.
+
+(* B3: duplicate declarations, repeated / ill-formed names in a state declaration *)
+Theorem C17_duplicate_declaration_rejected : forall sre lre kw t1 t2 t3 k ws1 ws2,
+  is_decl kw (k :: ws1) = true ->
+  parse_automaton sre lre kw (t1 ++ (k :: ws1) :: t2 ++ (k :: ws2) :: t3) = None.
+Proof. exact duplicate_declaration_rejected. Qed.
+
+Theorem C17_duplicate_declaration_rejected_parsers : forall t1 t2 t3 k ws1 ws2,
+  let text := t1 ++ (k :: ws1) :: t2 ++ (k :: ws2) :: t3 in
+  (is_decl kw_dfa (k :: ws1) = true -> forall sre, parse_dfa_with sre text = None) /\
+  (is_decl kw_nfa (k :: ws1) = true -> parse_nfa text = None) /\
+  (is_decl kw_pda (k :: ws1) = true -> parse_pda text = None) /\
+  (is_decl kw_tm (k :: ws1) = true -> parse_tm text = None).
+Proof. exact duplicate_declaration_rejected_parsers. Qed.
+
+Theorem C17_repeated_state_rejected : forall sre lre kw text k ws,
+  In (k :: ws) text -> k = kw_states \/ k = kw_final \/ k = kw_initial -> has_dup ws = true ->
+  parse_automaton sre lre kw text = None.
+Proof. exact repeated_state_rejected. Qed.
+
+Theorem C17_bad_state_declaration_rejected : forall sre lre kw text k ws,
+  In (k :: ws) text -> k = kw_states \/ k = kw_final \/ k = kw_initial ->
+  (k = kw_states /\ ws = []) \/ (exists s, In s ws /\ sre s = false) ->
+  parse_automaton sre lre kw text = None.
+Proof. exact bad_state_declaration_rejected. Qed.
+
+(* B4: no / several initial states *)
+Theorem C17_initial_count_rejected : forall sre A, length (dedup (a_init A)) <> 1 ->
+  build_dfa sre A = None /\ build_nfa sre A = None /\ build_pda sre A = None /\ build_tm sre A = None.
+Proof. exact initial_count_rejected. Qed.
+
+Theorem C17_no_initial_rejected : forall sre A, a_init A = [] ->
+  build_dfa sre A = None /\ build_nfa sre A = None /\ build_pda sre A = None /\ build_tm sre A = None.
+Proof. exact no_initial_rejected. Qed.
+
+Theorem C17_several_initial_rejected : forall sre A q1 q2, In q1 (a_init A) -> In q2 (a_init A) -> q1 <> q2 ->
+  build_dfa sre A = None /\ build_nfa sre A = None /\ build_pda sre A = None /\ build_tm sre A = None.
+Proof. exact several_initial_rejected. Qed.
+
+Theorem C17_no_initial_line_rejected : forall sre lre kw text A,
+  parse_automaton sre lre kw text = Some A -> (forall ws, ~ In (kw_initial :: ws) text) ->
+  build_dfa sre A = None /\ build_nfa sre A = None /\ build_pda sre A = None /\ build_tm sre A = None.
+Proof. exact no_initial_line_rejected. Qed.
+
+Theorem C17_initial_line_count_rejected : forall sre lre kw text A ws,
+  parse_automaton sre lre kw text = Some A -> In (kw_initial :: ws) text -> length ws <> 1 ->
+  build_dfa sre A = None /\ build_nfa sre A = None /\ build_pda sre A = None /\ build_tm sre A = None.
+Proof. exact initial_line_count_rejected. Qed.
+
+(* B5: undeclared states *)
+Theorem C17_used_states_In : forall A s,
+  In s (used_states A) <->
+  In s (a_init A) \/ In s (a_final A) \/ exists p a q, In (p, a, q) (a_trans A) /\ (s = p \/ s = q).
+Proof. exact used_states_In. Qed.
+
+Theorem C17_undeclared_state_rejected : forall sre A s,
+  a_states A <> [] -> In s (used_states A) -> ~ In s (a_states A) ->
+  build_dfa sre A = None /\ build_nfa sre A = None /\ build_pda sre A = None /\ build_tm sre A = None.
+Proof. exact undeclared_state_rejected. Qed.
+
+(* B6: undeclared symbols *)
+Theorem C17_undeclared_symbol_rejected_dfa : forall sre A decl p a q,
+  lookup kw_input_symbols (a_items A) = Some decl -> In (p, a, q) (a_trans A) -> ~ In a decl ->
+  build_dfa sre A = None.
+Proof. exact undeclared_symbol_rejected_dfa. Qed.
+
+Theorem C17_undeclared_symbol_rejected_nfa : forall sre A decl p a q,
+  lookup kw_input_symbols (a_items A) = Some decl -> In (p, a, q) (a_trans A) -> ~ In a decl ->
+  (forall eps, parse_symbol A kw_epsilon c_eps [c_underscore] = Some eps -> a <> eps) ->
+  build_nfa sre A = None.
+Proof. exact undeclared_symbol_rejected_nfa. Qed.
+
+Theorem C17_undeclared_symbol_rejected_pda : forall sre A decl p l q,
+  In (p, l, q) (a_trans A) ->
+  (forall eps, parse_symbol A kw_epsilon c_eps [c_underscore] = Some eps ->
+     (lookup kw_input_symbols (a_items A) = Some decl /\ lbl l 0 <> eps /\ ~ In (lbl l 0) decl) \/
+     (lookup kw_stack_symbols (a_items A) = Some decl /\
+      ((lbl l 2 <> eps /\ ~ In (lbl l 2) decl) \/ (lbl l 3 <> eps /\ ~ In (lbl l 3) decl)))) ->
+  build_pda sre A = None.
+Proof. exact undeclared_symbol_rejected_pda. Qed.
+
+Theorem C17_undeclared_symbol_rejected_tm : forall sre A decl p l q,
+  lookup kw_tape_symbols (a_items A) = Some decl -> In (p, l, q) (a_trans A) ->
+  ~ In (lbl l 0) decl \/ ~ In (lbl l 1) decl ->
+  build_tm sre A = None.
+Proof. exact undeclared_symbol_rejected_tm. Qed.
+
+(* B7: DFA determinism and totality *)
+Theorem C17_nondeterministic_rejected : forall sre A, ~ NoDup (dfa_keys A) -> build_dfa sre A = None.
+Proof. exact nondeterministic_rejected. Qed.
+
+Theorem C17_nondeterministic_rejected_two : forall sre A t1 t2 t3 p a q1 q2,
+  a_trans A = t1 ++ (p, a, q1) :: t2 ++ (p, a, q2) :: t3 -> build_dfa sre A = None.
+Proof. exact nondeterministic_rejected_two. Qed.
+
+Theorem C17_not_total_rejected : forall sre A sigma p a,
+  get_symbol_set A kw_input_symbols (dedup (map snd (dfa_keys A))) = Some sigma ->
+  In p (states_or_used A) -> In a sigma -> (forall q, ~ In (p, a, q) (a_trans A)) ->
+  build_dfa sre A = None.
+Proof. exact not_total_rejected. Qed.
+
+(* ---------------- Part C: insensitivity to layout ---------------- *)
+Theorem C17_comment_line_irrelevant : forall sre lre kw t1 l t2,
+  is_comment l = true -> parse_automaton sre lre kw (t1 ++ l :: t2) = parse_automaton sre lre kw (t1 ++ t2).
+Proof. exact comment_line_irrelevant. Qed.
+
+Theorem C17_comments_irrelevant : forall sre lre kw text,
+  parse_automaton sre lre kw (filter (fun l => negb (is_comment l)) text) = parse_automaton sre lre kw text.
+Proof. exact comments_irrelevant. Qed.
+
+Theorem C17_comments_irrelevant_parsers : forall text,
+  let text' := filter (fun l => negb (is_comment l)) text in
+  (forall sre, parse_dfa_with sre text' = parse_dfa_with sre text) /\ parse_nfa text' = parse_nfa text /\
+  parse_pda text' = parse_pda text /\ parse_tm text' = parse_tm text.
+Proof. exact comments_irrelevant_parsers. Qed.
+
+Theorem C17_label_split_irrelevant : forall sre lre kw t1 t2 p q l1 l2,
+  is_trans kw [p] = true -> l1 <> [] -> l2 <> [] ->
+  parse_automaton sre lre kw (t1 ++ (p :: q :: l1) :: (p :: q :: l2) :: t2) =
+  parse_automaton sre lre kw (t1 ++ (p :: q :: l1 ++ l2) :: t2).
+Proof. exact label_split_irrelevant. Qed.
+
+Theorem C17_line_order_irrelevant : forall sre lre kw text text',
+  Permutation text text' ->
+  opt_rel aut_equiv (parse_automaton sre lre kw text) (parse_automaton sre lre kw text').
+Proof. exact line_order_irrelevant. Qed.
+
+Theorem C17_build_dfa_equiv : forall sre A B, aut_equiv A B -> opt_rel tdfa_equiv (build_dfa sre A) (build_dfa sre B).
+Proof. exact build_dfa_equiv. Qed.
+Theorem C17_build_nfa_equiv : forall sre A B, aut_equiv A B -> opt_rel tnfa_equiv (build_nfa sre A) (build_nfa sre B).
+Proof. exact build_nfa_equiv. Qed.
+Theorem C17_build_pda_equiv : forall sre A B, aut_equiv A B -> opt_rel tpda_equiv (build_pda sre A) (build_pda sre B).
+Proof. exact build_pda_equiv. Qed.
+Theorem C17_build_tm_equiv : forall sre A B, aut_equiv A B -> NoDup (map tm_key (a_trans A)) ->
+  opt_rel ttm_equiv (build_tm sre A) (build_tm sre B).
+Proof. exact build_tm_equiv. Qed.
+
+Theorem C17_parse_dfa_line_order : forall sre text text', Permutation text text' ->
+  opt_rel tdfa_equiv (parse_dfa_with sre text) (parse_dfa_with sre text').
+Proof. exact parse_dfa_line_order. Qed.
+Theorem C17_parse_nfa_line_order : forall text text', Permutation text text' ->
+  opt_rel tnfa_equiv (parse_nfa text) (parse_nfa text').
+Proof. exact parse_nfa_line_order. Qed.
+Theorem C17_parse_pda_line_order : forall text text', Permutation text text' ->
+  opt_rel tpda_equiv (parse_pda text) (parse_pda text').
+Proof. exact parse_pda_line_order. Qed.
+Theorem C17_parse_tm_line_order : forall text text', Permutation text text' ->
+  NoDup (map tm_key (transs kw_tm text)) ->
+  opt_rel ttm_equiv (parse_tm text) (parse_tm text').
+Proof. exact parse_tm_line_order. Qed.
+
+(* two TM lines with the same (state, read symbol): the later one wins, so the order of the lines matters *)
+Require Coq.Strings.String.
+Module C17_witness.
+  Import Coq.Strings.String.
+  Local Open Scope string_scope.
+  Theorem C17_tm_line_order_matters :
+    let l1 := [tok "p"; tok "qa"; tok "aa,L"] in
+    let l2 := [tok "p"; tok "qr"; tok "aa,R"] in
+    let hdr := [[tok "initial"; tok "p"]; [tok "accept"; tok "qa"]; [tok "reject"; tok "qr"]] in
+    (match parse_tm (hdr ++ [l1; l2])%list, parse_tm (hdr ++ [l2; l1])%list with
+     | Some T1, Some T2 => negb (Prelude.eqb (lookup (tok "p", tok "a") (ttD T1)) (lookup (tok "p", tok "a") (ttD T2)))
+     | _, _ => false
+     end) = true.
+  Proof. exact ParserExamples.tm_line_order_matters. Qed.
+End C17_witness.
+
+Print Assumptions C17_parse_dfa_wf.
+Print Assumptions C17_parse_nfa_wf.
+Print Assumptions C17_parse_pda_wf.
+Print Assumptions C17_parse_tm_wf.
+Print Assumptions C17_parse_automaton_spec.
+Print Assumptions C17_parse_automaton_exact.
+Print Assumptions C17_build_dfa_exact.
+Print Assumptions C17_build_nfa_exact.
+Print Assumptions C17_group_nfa_target.
+Print Assumptions C17_build_pda_exact.
+Print Assumptions C17_build_tm_exact.
+Print Assumptions C17_tm_delta_lookup.
+Print Assumptions C17_get_symbol_set_Some.
+Print Assumptions C17_parse_symbol_Some.
+Print Assumptions C17_bad_line_rejected.
+Print Assumptions C17_rejected_line_fold.
+Print Assumptions C17_incomplete_transition_rejected.
+Print Assumptions C17_incomplete_transition_rejected_all.
+Print Assumptions C17_bad_label_rejected.
+Print Assumptions C17_bad_label_rejected_dfa.
+Print Assumptions C17_bad_label_rejected_nfa.
+Print Assumptions C17_bad_label_rejected_pda.
+Print Assumptions C17_bad_label_rejected_tm.
+Print Assumptions C17_duplicate_declaration_rejected.
+Print Assumptions C17_duplicate_declaration_rejected_parsers.
+Print Assumptions C17_repeated_state_rejected.
+Print Assumptions C17_bad_state_declaration_rejected.
+Print Assumptions C17_initial_count_rejected.
+Print Assumptions C17_no_initial_rejected.
+Print Assumptions C17_several_initial_rejected.
+Print Assumptions C17_no_initial_line_rejected.
+Print Assumptions C17_initial_line_count_rejected.
+Print Assumptions C17_used_states_In.
+Print Assumptions C17_undeclared_state_rejected.
+Print Assumptions C17_undeclared_symbol_rejected_dfa.
+Print Assumptions C17_undeclared_symbol_rejected_nfa.
+Print Assumptions C17_undeclared_symbol_rejected_pda.
+Print Assumptions C17_undeclared_symbol_rejected_tm.
+Print Assumptions C17_nondeterministic_rejected.
+Print Assumptions C17_nondeterministic_rejected_two.
+Print Assumptions C17_not_total_rejected.
+Print Assumptions C17_comment_line_irrelevant.
+Print Assumptions C17_comments_irrelevant.
+Print Assumptions C17_comments_irrelevant_parsers.
+Print Assumptions C17_label_split_irrelevant.
+Print Assumptions C17_line_order_irrelevant.
+Print Assumptions C17_build_dfa_equiv.
+Print Assumptions C17_build_nfa_equiv.
+Print Assumptions C17_build_pda_equiv.
+Print Assumptions C17_build_tm_equiv.
+Print Assumptions C17_parse_dfa_line_order.
+Print Assumptions C17_parse_nfa_line_order.
+Print Assumptions C17_parse_pda_line_order.
+Print Assumptions C17_parse_tm_line_order.
+Print Assumptions C17_witness.C17_tm_line_order_matters.
